@@ -17,7 +17,11 @@
 (* like emptyQueue() = true (C11).                                          *)
 (* Defects: "dqn_unlocked" = ~DisableQueueNotify decrements outside the     *)
 (* mutex (the code before the D5 repair); "empty_order" = emptyQueue reads  *)
-(* the counter before the list.                                             *)
+(* the counter before the list; "guard_restore" = the guard of process /    *)
+(* processOne stores the value it saw on entry back on exit (seed S51);     *)
+(* "guard_if_last" = processOne raises the counter only when it took the    *)
+(* last event (seed S76).  Both keep their per-call note in rd[t], which    *)
+(* process / processOne do not use otherwise (markers are not events).      *)
 (* `lastT` is the thread that took the last step (schedules for replay).    *)
 (***************************************************************************)
 EXTENDS Naturals, Sequences, FiniteSets, TLC
@@ -81,21 +85,30 @@ DQ(t) == /\ pc[t] = "d_q" /\ IF q # <<>> THEN Goto(t, "n_notify") ELSE Goto(t, "
 DEc(t) == /\ pc[t] = "d_ec" /\ IF emptyCtr # 0 THEN Goto(t, "n_notify") ELSE Goto(t, "n_end")
           /\ UNCHANGED Sh /\ UNCHANGED <<prog, ip, tmp, rd>> /\ UNCHANGED Gh
 \* ---- process / processOne: unlocked pre-check; guard++; lock; take; unlock; dispatch each; guard--
-PPre(t) == /\ pc[t] = "p_pre" /\ IF q = <<>> THEN Done(t) ELSE (Goto(t, "p_inc") /\ UNCHANGED ip)
+LateGuard(t) == ~Fixed("guard_if_last") /\ Op(t).k = "processOne"
+PPre(t) == /\ pc[t] = "p_pre" /\ IF q = <<>> THEN Done(t) ELSE (Goto(t, IF LateGuard(t) THEN "p_lock" ELSE "p_inc") /\ UNCHANGED ip)
            /\ UNCHANGED Sh /\ UNCHANGED <<prog, tmp, rd>> /\ UNCHANGED Gh
-PInc(t) == pc[t] = "p_inc" /\ emptyCtr' = emptyCtr + 1 /\ Goto(t, "p_lock") /\ UNCHANGED <<q, notifyCtr, mtx, waitset, woken, prog, ip, tmp, rd>> /\ UNCHANGED Gh
+PInc(t) == /\ pc[t] = "p_inc" /\ emptyCtr' = emptyCtr + 1 /\ Goto(t, "p_lock")
+           /\ rd' = IF Fixed("guard_restore") THEN rd ELSE [rd EXCEPT ![t] = <<100 + emptyCtr>>]       \* remember what was there
+           /\ UNCHANGED <<q, notifyCtr, mtx, waitset, woken, prog, ip, tmp>> /\ UNCHANGED Gh
 PLock(t) == pc[t] = "p_lock" /\ mtx = 0 /\ mtx' = t /\ Goto(t, "p_cs") /\ UNCHANGED <<q, emptyCtr, notifyCtr, waitset, woken, prog, ip, tmp, rd>> /\ UNCHANGED Gh
 PCs(t) == /\ pc[t] = "p_cs" /\ mtx = t /\ mtx' = 0
           /\ LET take == IF Op(t).k = "processOne" THEN (IF q = <<>> THEN <<>> ELSE <<Head(q)>>) ELSE q IN
              /\ tmp' = [tmp EXCEPT ![t] = take] /\ q' = SubSeq(q, Len(take) + 1, Len(q))
              /\ status' = SetStatus(Range(take), "held")
-          /\ Goto(t, "p_disp") /\ UNCHANGED <<emptyCtr, notifyCtr, waitset, woken, prog, ip, rd, enqDone, snap, bad>>
+             \* (defect guard_if_last: the counter is raised here, and only if nothing is left in the list; <<0>> notes "not raised")
+             /\ emptyCtr' = IF LateGuard(t) /\ Len(take) = Len(q) THEN emptyCtr + 1 ELSE emptyCtr
+             /\ rd' = IF LateGuard(t) /\ Len(take) # Len(q) THEN [rd EXCEPT ![t] = <<0>>] ELSE rd
+          /\ Goto(t, "p_disp") /\ UNCHANGED <<notifyCtr, waitset, woken, prog, ip, enqDone, snap, bad>>
 PDisp(t) == /\ pc[t] = "p_disp"
             /\ IF tmp[t] = <<>> THEN Goto(t, "p_dec") /\ UNCHANGED <<tmp, status, bad>>
                ELSE /\ bad' = IF status[Head(tmp[t])] # "held" THEN "double-consume" ELSE bad
                     /\ status' = SetStatus({Head(tmp[t])}, "dispatched") /\ tmp' = [tmp EXCEPT ![t] = Tail(@)] /\ UNCHANGED pc
             /\ UNCHANGED Sh /\ UNCHANGED <<prog, ip, rd, enqDone, snap>>
-PDec(t) == pc[t] = "p_dec" /\ emptyCtr' = emptyCtr - 1 /\ Done(t) /\ UNCHANGED <<q, notifyCtr, mtx, waitset, woken, prog, tmp, rd>> /\ UNCHANGED Gh
+PDec(t) == /\ pc[t] = "p_dec"
+           /\ emptyCtr' = IF rd[t] = <<0>> THEN emptyCtr ELSE IF rd[t] # <<>> /\ rd[t][1] >= 100 THEN rd[t][1] - 100 ELSE emptyCtr - 1
+           /\ rd' = [rd EXCEPT ![t] = <<>>]
+           /\ Done(t) /\ UNCHANGED <<q, notifyCtr, mtx, waitset, woken, prog, tmp>> /\ UNCHANGED Gh
 \* ---- takeEvent / clearEvents
 TPre(t) == /\ pc[t] = "t_pre" /\ IF q = <<>> THEN Done(t) ELSE (Goto(t, "t_lock") /\ UNCHANGED ip)
            /\ UNCHANGED Sh /\ UNCHANGED <<prog, tmp, rd>> /\ UNCHANGED Gh
